@@ -283,7 +283,8 @@ PROPS = {
         level='exploration',
         vc=['rewriting.snake_removal.<locals>.follow_wire', 'rewriting.snake_removal.<locals>.find_snake',
             'rewriting.snake_removal.<locals>.unsnake[adjacent]', 'canary:unsnake.without_type_test',
-            'rigid.Diagram.transpose', 'rigid.Cup.__init__', 'rigid.Cap.__init__', 'rigid.Cup.dagger', 'rigid.Cap.dagger'],
+            'rigid.Diagram.transpose', 'rigid.Cup.__init__', 'rigid.Cap.__init__', 'rigid.Cup.dagger', 'rigid.Cap.dagger',
+            'rewriting.interchange', 'rewriting.interchange[far]'],
         sym=[], rtc='C07',
         level_text='Discharged (VC, diagrams of any length and width): three of the local functions of snake_removal. '
                    'follow_wire: with the loop invariant "j is the offset of the followed wire below box i" (the wire position is '
@@ -295,7 +296,8 @@ PROPS = {
                    'the cup sits on the opposite leg of the cap; no IndexError. unsnake, adjacent case: for such a pair with '
                    'no obstruction exactly one diagram is yielded, well-formed, with the input dom and cod and two boxes '
                    'fewer; a canary states the same without the type comparison and must be refuted (the layer composition '
-                   'raises). Also the producers of its inputs: transposes, Cup / Cap constructors and daggers. '
+                   'raises). Also the producers of its inputs (transposes, Cup / Cap constructors and daggers) and the interchange '
+                   'contract (adjacent and distant moves), which unsnake relies on for every obstruction it moves. '
                    'Bounded stand-in for everything else (obstruction removal with its index bookkeeping, the main loop, '
                    'semantic invariance, termination): all rigid diagrams with <= 3 (thorough 4) boxes over 13 box kinds (cups and caps in all '
                    'four orientations incl. non-snake adjacent pairs, adjoint wires, a scalar, daggers) on 5 domains plus '
